@@ -8,6 +8,10 @@
                                   never fuse (`.5.5`, `1-2`, `1 .5`, `1e2.5`), flags never swallow digits (`0 015`);
      emitted_lexemes            : each written lexeme is the coordinate itself, its `e2` spelling, or `.0` for `0`;
      rewrite_00_value_shape     : the `00` -> `e2` rewrite is applied to plain integers only (d00 becomes de2: same value);
+                                  since the repair of K70 (the rewrite is skipped when the coordinate contains '.', 'e' or
+                                  'E': `1e100` is no longer written `1e1e2`) this follows from the shape of the coordinate
+                                  alone — ok_item no longer carries the hypothesis rewrite_safe
+                                  (PathSep.ends_00_rewrite_safe, PathSep.exponent_00_not_rewritten);
      path_separators_neg00_refuted : the hypothesis cannot be dropped — the coordinate `-00` would be written `-e2`
                                   (minify.Number never returns it: measured).
    Tie: random item sequences are written by the REAL copyNumber/copyFlag (verif hook svg.VerifEmitItems) and by the
